@@ -7,6 +7,7 @@ import (
 	"fmt"
 	"os"
 	"path/filepath"
+	"sort"
 	"strings"
 	"sync"
 	"time"
@@ -150,7 +151,7 @@ CHECK_DEADLOCK FALSE
 		}
 		return strings.ToLower(strings.TrimSuffix(strings.TrimPrefix(hrp, "AGE-PLUGIN-"), "-"))
 	}
-	extra := []string{"../x", "x/../y", ".x", "..", "/pwn", "/../../tmp/pwn", "a/b", "\\pwn", "~/bin/x", "*a", "a b", "a\tb", "é", ""}
+	extra := []string{"foo", "Foo", "FOO", "x.y", "X.Y", "../x", "x/../y", ".x", "..", "/pwn", "/../../tmp/pwn", "a/b", "\\pwn", "~/bin/x", "*a", "a b", "a\tb", "é", ""}
 	for i := range cases {
 		names[nameOf(&cases[i])] = true
 	}
@@ -221,8 +222,18 @@ CHECK_DEADLOCK FALSE
 		run.Distinct(c.Kind + ":" + name)
 	}
 	run.Add("encoded_name_cases", len(cases))
-	// bare names
+	// bare names (sorted, so that e.g. "Foo" is used before "foo" in this one process; a second pass runs in reverse order)
+	var bare []string
 	for n := range names {
+		bare = append(bare, n)
+	}
+	sort.Strings(bare)
+	for i := len(bare) - 1; i >= 0; i-- {
+		if validName(bare[i]) {
+			bare = append(bare, bare[i])
+		}
+	}
+	for _, n := range bare {
 		constructed := false
 		marker := "|-> add-identity "
 		var enc string
